@@ -260,7 +260,13 @@ func (m *Module) run(rel string, timeout time.Duration, env []string, name strin
 				code = ee.ExitCode()
 			}
 		}
-		return Result{Out: buf.String(), ExitCode: code}
+		out := buf.String()
+		if code != 0 && strings.TrimSpace(out) == "" {
+			// go, the compiler and gombok all say why they fail; a silent non-zero exit is a process killed
+			// from outside (memory pressure). ToolchainTrouble recognises the marker.
+			out = fmt.Sprintf("%s (exit code %d)\n", DiedSilently, code)
+		}
+		return Result{Out: out, ExitCode: code}
 	case <-time.After(timeout):
 		_ = cmd.Process.Kill()
 		<-done
@@ -286,12 +292,18 @@ func (m *Module) RunGombok(rel, pkg string, extraEnv ...string) Result {
 	return r
 }
 
+// DiedSilently marks the output of a child process that ended non-zero without writing anything.
+const DiedSilently = "verif: child process ended without any output"
+
 // ToolchainTrouble recognises output that reports a failure of the environment the tool ran in, not a
 // decision of the tool: go/packages could not read export data because the shared Go build cache was
 // being trimmed or cleaned by another process at that moment ("internal error: package ... without
 // types was imported from ..."), or the machine ran out of disk, memory or processes. Such a run says
 // nothing about the property; callers retry and otherwise report a harness problem (inconclusive).
 func ToolchainTrouble(out string) bool {
+	if strings.Contains(out, DiedSilently) || strings.Contains(out, "signal: killed") {
+		return true
+	}
 	if strings.Contains(out, "internal error: package ") && strings.Contains(out, " without types was imported from ") {
 		return true
 	}
@@ -301,6 +313,39 @@ func ToolchainTrouble(out string) bool {
 		}
 	}
 	return false
+}
+
+// GoTestLaws runs the law test of package ./pa. A run that ends non-zero without any LAWFAIL line and
+// without a build failure is repeated (the law test is deterministic): on a loaded machine `go test` is
+// occasionally killed from outside (memory pressure, a cleaned build cache) and then says nothing at all.
+// crashed reports that the last run shows a crash of the test binary itself (panic, fatal error, failed
+// test); died that it ended non-zero without showing one - which decides nothing.
+func (m *Module) GoTestLaws(timeout time.Duration) (r Result, crashed, died bool) {
+	for attempt := 0; attempt < 3; attempt++ {
+		r = m.Go(timeout, "test", "-count=1", "-vet=off", "-v", "./pa")
+		crashed, died = false, false
+		if r.TimedOut || r.ExitCode == 0 || strings.Contains(r.Out, "LAWFAIL\t") ||
+			strings.Contains(r.Out, "[build failed]") || strings.Contains(r.Out, "[setup failed]") {
+			return
+		}
+		shows := false
+		for _, m := range []string{"panic:", "fatal error:", "--- FAIL", "goroutine "} {
+			if strings.Contains(r.Out, m) {
+				shows = true
+			}
+		}
+		if shows && !ToolchainTrouble(r.Out) && !strings.Contains(r.Out, "signal: killed") {
+			if attempt > 0 {
+				crashed = true
+				return
+			}
+			// seen once: make sure it is the code, not the machine
+			continue
+		}
+		died = true
+		time.Sleep(time.Duration(attempt+1) * 3 * time.Second)
+	}
+	return
 }
 
 // Go runs a go command at the module root.
